@@ -1,8 +1,140 @@
-(* Properties_C16.v -- theorems for property C16 (headline statements only). *)
-From LCDB Require Import Base Varint Crc32c Block Filter Snappy TableFormat.
+(* Properties_C16.v -- headline theorems for property C16 (statements only; the
+   proofs are in BlockProofs / FilterProofs / FilterBlockProofs / SnappyProofs /
+   TableProofs / TableBuildProofs). *)
+From LCDB Require Import Base Varint Crc32c Block Trie Filter Snappy TableFormat.
+From LCDB Require Import BlockProofs BlockIterProofs FilterProofs FilterBlockProofs SnappyProofs TableProofs TableBuildProofs.
 Local Open Scope N_scope.
 
-Theorem C16_standard_constants :
-  TABLE_MAGIC = 15800726617472432983 /\ FOOTER_SIZE = 48 /\ TRAILER_SIZE = 5 /\ FILTER_BASE_LG = 11.
-Proof. repeat split; reflexivity. Qed.
-Print Assumptions C16_standard_constants.
+(* (a) filters never reject a present key: for ANY hash function *)
+Theorem C16_bloom_no_false_negative :
+  forall (hashf : bytes -> N) (bits : N) (keys : list bytes) (key : bytes),
+  In key keys ->
+  bloom_match_with hashf (bloom_build_with hashf bits keys) key = Ok true.
+Proof. exact bloom_no_false_negative. Qed.
+Print Assumptions C16_bloom_no_false_negative.
+
+(* (a) ... and for the filter block: a key added under a block offset matches at that
+   offset, for any policy without false negatives *)
+Theorem C16_filter_block_no_false_negative :
+  forall (fbuild : list bytes -> bytes) (fmatch : bytes -> bytes -> res bool),
+  (forall keys key, In key keys -> fmatch (fbuild keys) key = Ok true) ->
+  forall (groups : list (N * list bytes)) (off : N) (ks : list bytes) (k : bytes),
+  groups_sorted 0 groups ->
+  nlen (filter_block_build fbuild groups) < 4294967296 ->
+  In (off, ks) groups -> In k ks ->
+  filter_block_matches fmatch (filter_block_build fbuild groups) off k = Ok true.
+Proof. exact filter_block_no_false_negative. Qed.
+Print Assumptions C16_filter_block_no_false_negative.
+
+(* the two policies lcdb tables use have no false negatives *)
+Theorem C16_lcdb_policies_sound :
+  (forall bits keys key, In key keys -> user_fmatch (user_fbuild bits keys) key = Ok true) /\
+  (forall bits keys key, In key keys -> internal_fmatch (internal_fbuild bits keys) key = Ok true).
+Proof. exact (conj user_policy_sound internal_policy_sound). Qed.
+Print Assumptions C16_lcdb_policies_sound.
+
+(* (b) decoding a built block returns exactly the entries (no sortedness needed) *)
+Theorem C16_block_entries_build :
+  forall (interval : N) (es : list entry),
+  1 <= interval -> wf_entries es ->
+  block_entries (block_build interval es) = Some es.
+Proof. exact block_entries_build. Qed.
+Print Assumptions C16_block_entries_build.
+
+(* (d) memory safety / totality of the decoders on ALL byte strings *)
+Theorem C16_block_iterator_safe :
+  forall (cmp : bytes -> bytes -> comparison) (is_internal : bool) (b : bytes) (ops : list iop),
+  block_run cmp is_internal b ops <> OOB.
+Proof. exact block_run_safe. Qed.
+Print Assumptions C16_block_iterator_safe.
+
+Theorem C16_filter_reader_safe :
+  forall (fmatch : bytes -> bytes -> res bool),
+  (forall f k, fmatch f k <> OOB) ->
+  forall (blockbytes : bytes) (off : N) (key : bytes),
+  filter_block_matches fmatch blockbytes off key <> OOB.
+Proof. exact filter_block_matches_safe. Qed.
+Print Assumptions C16_filter_reader_safe.
+
+Theorem C16_bloom_match_safe :
+  forall (hashf : bytes -> N) (filter key : bytes), bloom_match_with hashf filter key <> OOB.
+Proof. exact bloom_match_safe. Qed.
+Print Assumptions C16_bloom_match_safe.
+
+Theorem C16_snappy_decode_safe : forall x : bytes, snappy_decode x <> OOB.
+Proof. exact snappy_decode_safe. Qed.
+Print Assumptions C16_snappy_decode_safe.
+
+Theorem C16_footer_decode_safe : forall l : bytes, footer_decode l <> OOB.
+Proof. exact footer_decode_safe. Qed.
+Print Assumptions C16_footer_decode_safe.
+
+Theorem C16_read_block_safe :
+  forall (file : bytes) (verify : bool) (h : handle), read_block file (nlen file) verify h <> OOB.
+Proof. exact read_block_safe. Qed.
+Print Assumptions C16_read_block_safe.
+
+Theorem C16_table_iterator_safe :
+  forall (cmp : bytes -> bytes -> comparison) (is_internal has_filter paranoid verify : bool)
+         (file : bytes) (ops : list iop),
+  table_run cmp is_internal has_filter paranoid verify file ops <> OOB.
+Proof. exact table_iterator_safe. Qed.
+Print Assumptions C16_table_iterator_safe.
+
+Theorem C16_table_get_safe :
+  forall (cmp : bytes -> bytes -> comparison) (is_internal has_filter : bool)
+         (fmatch : bytes -> bytes -> res bool),
+  (forall f k, fmatch f k <> OOB) ->
+  forall (paranoid verify : bool) (file k : bytes),
+  table_lookup cmp is_internal has_filter fmatch paranoid verify file k <> OOB.
+Proof. exact table_lookup_safe. Qed.
+Print Assumptions C16_table_get_safe.
+
+(* (e) a built table yields exactly its entries, in order, through the linear reader:
+   any block size, restart interval, filter policy, checksum options; any compression
+   function that the Snappy decoder inverts; both lcdb comparators *)
+Theorem C16_table_entries_build_bytewise :
+  forall bits compress block_size interval compression paranoid verify es,
+  (compression = 1 -> forall raw, nlen (compress raw) < nlen raw - nlen raw / 8 ->
+     snappy_decode_size (compress raw) <> None /\ snappy_decode (compress raw) = Ok (Some raw)) ->
+  Forall (fun e => nlen (fst e) < 4294967296 /\ nlen (snd e) < 4294967296) es ->
+  nlen es + 1 < 4294967296 ->
+  let file := table_build_i 0 bits compress block_size interval compression es in
+  wf_bytes file = true -> nlen file < 18446744073709551616 ->
+  table_entries_i 0 bits paranoid verify file = Ok (inr es).
+Proof. exact table_entries_build_bytewise. Qed.
+Print Assumptions C16_table_entries_build_bytewise.
+
+Theorem C16_table_entries_build_internal :
+  forall bits compress block_size interval compression paranoid verify es,
+  (compression = 1 -> forall raw, nlen (compress raw) < nlen raw - nlen raw / 8 ->
+     snappy_decode_size (compress raw) <> None /\ snappy_decode (compress raw) = Ok (Some raw)) ->
+  Forall (fun e => nlen (fst e) < 4294967296 /\ 8 <= nlen (fst e) /\ nlen (snd e) < 4294967296) es ->
+  nlen es + 1 < 4294967296 ->
+  let file := table_build_i 1 bits compress block_size interval compression es in
+  wf_bytes file = true -> nlen file < 18446744073709551616 ->
+  table_entries_i 1 bits paranoid verify file = Ok (inr es).
+Proof. exact table_entries_build_internal. Qed.
+Print Assumptions C16_table_entries_build_internal.
+
+(* (f) Snappy: decoding the serialisation of any valid element list (literals with
+   every length encoding, copies with 1-, 2- and 4-byte offsets, overlapping or not)
+   yields its expansion; the memcpy path of the C decoder equals its byte loop *)
+Theorem C16_snappy_decode_ops :
+  forall ops : list sop,
+  sops_ok 0 ops -> sops_len ops < 2147483648 ->
+  snappy_decode (varint32_write (sops_len ops) ++ sops_bytes ops)
+  = Ok (Some (rev (sops_apply ops []))).
+Proof. exact snappy_decode_ops. Qed.
+Print Assumptions C16_snappy_decode_ops.
+
+(* (c, forward half) on a built block the iterator state machine enumerates exactly
+   the entries: First, then Next repeatedly; the Next after the last entry
+   invalidates the iterator with status OK *)
+Theorem C16_block_iter_forward :
+  forall (cmp : bytes -> bytes -> comparison) (isint : bool) (interval : N) (es : list entry),
+  wf_entries es -> keys_ge8 isint es ->
+  block_run cmp isint (block_build interval es) (IFirst :: repeat INext (length es))
+  = Ok (map Some es ++ [None], SOk).
+Proof. exact block_iter_forward. Qed.
+Print Assumptions C16_block_iter_forward.
